@@ -15,6 +15,11 @@ For random real parameter points above all thresholds and away from the poles it
     reported under the single signature kmatrix_subthreshold_pole_not_unitary, and only if T is symmetric, all
     differential checks pass and the same configuration with the poles moved above threshold is unitary.
 
+  * HISTORIES in one process: RelativisticKMatrix.formulate(phsp_factor=f1) then (phsp_factor=f2) with f1, f2 plain
+    functions of the same qualified name (closures of one factory, lambdas of one comprehension) and identical
+    remaining arguments: every width of each result carries the caller's callable (identity), only the caller's
+    phase-space class occurs after unfolding the widths, and the second result passes all numeric checks.
+
 usage: search_C09.py <seed> <n> | --replay <file>
 """
 import json
@@ -29,9 +34,11 @@ common.assert_repo_import()
 from ampform.dynamics import EnergyDependentWidth  # noqa: E402
 from ampform.dynamics.kmatrix import NonRelativisticKMatrix, RelativisticKMatrix  # noqa: E402
 from ampform.dynamics.phasespace import (  # noqa: E402
+    EqualMassPhaseSpaceFactor,
     PhaseSpaceFactor,
     PhaseSpaceFactorAbs,
     PhaseSpaceFactorComplex,
+    PhaseSpaceFactorSWave,
 )
 
 PHSP = {"PhaseSpaceFactor": PhaseSpaceFactor, "PhaseSpaceFactorAbs": PhaseSpaceFactorAbs,
@@ -147,7 +154,7 @@ def rho_oracle(phsp: str, x: float, a: float, b: float) -> complex:
     return complex(mod)
 
 
-def checks(c):
+def checks(c, fulls_given=None, label=None):
     """All raw checks on one configuration; list of (signature, what)."""
     n = c["n"]
     sub = values(c)
@@ -201,8 +208,11 @@ def checks(c):
     if a > tol:
         fails.append(("not_symmetric/" + c["kind"], f"|T - T^T| = {a:.3e} (tol {tol:.1e})"))
     # the substituted result of formulate(parametrize=True), for the smaller configurations
-    if c.get("full"):
-        if c["kind"] == "nr":
+    if c.get("full") or fulls_given is not None:
+        label = label or f"formulate(parametrize=True, phsp_factor={c['phsp']}, L={c['L']})"
+        if fulls_given is not None:
+            fulls = [(fulls_given[0], T), (fulls_given[1], That)]
+        elif c["kind"] == "nr":
             full = NonRelativisticKMatrix.formulate(n, c["npoles"])
             fulls = [(full, T)]
         else:
@@ -216,19 +226,92 @@ def checks(c):
                     v = vals[i, j] = num(expand_sums(full[i, j]).xreplace(sub))
                     if abs(v - ref[i, j]) > tol:
                         fails.append(("formulate_parametrized_differs/" + c["kind"],
-                                      f"formulate(parametrize=True, phsp_factor={c['phsp']}, L={c['L']})[{i},{j}] = {v} but "
+                                      f"{label}[{i},{j}] = {v} but "
                                       f"T(K=parametrization with the caller's arguments, rho=phsp) = {ref[i, j]}"))
             if k == 0:
                 Sf = eye + 2j * vals
                 uf = np.abs(Sf.conj().T @ Sf - eye).max()
                 if uf > tol:
                     fails.append(("not_unitary_formulate/" + c["kind"],
-                                  f"formulate(parametrize=True, phsp_factor={c['phsp']}, L={c['L']}): |S^dagger S - 1| = {uf:.3e}"))
+                                  f"{label}: |S^dagger S - 1| = {uf:.3e}"))
     return fails
 
 
 KNOWN = "kmatrix_subthreshold_pole_not_unitary"
 EXPECTED_BELOW = ("k_not_real/rel", "not_unitary/rel", "not_unitary_formulate/rel")
+
+
+ALL_CLASSES = {"PhaseSpaceFactor": PhaseSpaceFactor, "PhaseSpaceFactorAbs": PhaseSpaceFactorAbs,
+               "PhaseSpaceFactorComplex": PhaseSpaceFactorComplex, "PhaseSpaceFactorSWave": PhaseSpaceFactorSWave,
+               "EqualMassPhaseSpaceFactor": EqualMassPhaseSpaceFactor}
+
+
+def make_phsp(cls):
+    """A phase-space factor given as a plain FUNCTION (PhaseSpaceFactorProtocol): every closure made
+    here has the same __module__ and __qualname__ but its own behaviour."""
+    def rho(s, m_a, m_b):
+        return cls(s, m_a, m_b)
+    return rho
+
+
+def make_lambdas(classes):
+    return [lambda s, m_a, m_b, _c=c: _c(s, m_a, m_b) for c in classes]
+
+
+def scan_history(expr, f, cls, what):
+    """Every width carries the caller's callable (identity) and, unfolded one level, only the caller's
+    phase-space class occurs."""
+    bad = []
+    n_edw = 0
+    for node in sp.preorder_traversal(expr):
+        if isinstance(node, EnergyDependentWidth):
+            n_edw += 1
+            if node.phsp_factor is not f:
+                bad.append(("foreign_callable_in_width/" + what,
+                            f"EnergyDependentWidth.phsp_factor is {node.phsp_factor!r}, not the caller's {f!r}"))
+            inner = node.evaluate()
+        elif isinstance(node, tuple(ALL_CLASSES.values())):
+            inner = node
+        else:
+            continue
+        for sub in sp.preorder_traversal(inner):
+            if isinstance(sub, tuple(ALL_CLASSES.values())) and type(sub) is not cls:
+                bad.append(("foreign_phsp_after_unfolding/" + what,
+                            f"{type(sub).__name__} occurs in a result formulated with a function returning {cls.__name__}"))
+    if n_edw == 0:
+        bad.append(("no_width_nodes/" + what, "no EnergyDependentWidth node in a relativistic result"))
+    seen, out = set(), []
+    for b in bad:
+        if b[0] not in seen:
+            seen.add(b[0])
+            out.append(b)
+    return out
+
+
+def run_history(c):
+    """formulate(phsp_factor=f1) then formulate(phsp_factor=f2) in ONE process, f1 and f2 different functions
+    with the same qualified name and identical remaining arguments; the second result must be the caller's."""
+    classes = [ALL_CLASSES[c["first"]], ALL_CLASSES[c["phsp"]]]
+    fs = [make_phsp(k) for k in classes] if c["style"] == "closure" else make_lambdas(classes)
+    kw = dict(angular_momentum=c["L"], meson_radius=sp.Float(c["d"], 30))
+    res = []
+    for f in fs:
+        res.append((RelativisticKMatrix.formulate(c["n"], c["npoles"], phsp_factor=f, **kw),
+                    RelativisticKMatrix.formulate(c["n"], c["npoles"], return_t_hat=True, phsp_factor=f, **kw)))
+    fails = []
+    for k, (f, cls) in enumerate(zip(fs, classes)):
+        for m in res[k]:
+            for e in m:
+                fails += scan_history(e, f, cls, f"call{k + 1}")
+    label = (f"formulate(phsp_factor=<function returning {c['phsp']}>, L={c['L']}) called after "
+             f"formulate(phsp_factor=<function of the same name returning {c['first']}>)")
+    fails += checks(dict(c, kind="rel", full=False), fulls_given=res[1], label=label)
+    seen, out = set(), []
+    for b in fails:
+        if b[0] not in seen:
+            seen.add(b[0])
+            out.append(b)
+    return out
 
 
 def run_case(c):
@@ -239,6 +322,8 @@ def run_case(c):
     reported under KNOWN only if nothing else is wrong (T symmetric, every differential check passes)
     and the same configuration with all poles moved above threshold passes every check.
     PhaseSpaceFactorAbs (L = 0) with sub-threshold poles gets the normal checks: it must be unitary."""
+    if c["kind"] == "history":
+        return run_history(c)
     fails = checks(c)
     between, _ = pole_regions(c) if c["kind"] == "rel" else ([], [])
     if not (between and c["phsp"] in ("PhaseSpaceFactor", "PhaseSpaceFactorComplex")):
@@ -293,6 +378,24 @@ def gen_cases(seed: int, n: int):
                     "gamma": [[round(rng.uniform(0.3, 1.5) * rng.choice([1, 1, -1]), 6) for _ in range(nch)]
                               for _ in range(npoles)],
                     "full": nch <= 2 and npoles <= 2 and (absv or i % 2 == 0)})
+    for i in range(24 if thorough else 4):
+        nch = 1 + i % 2
+        npoles = rng.choice([1, 2])
+        ma = [round(rng.uniform(0.1, 0.6), 6) for _ in range(nch)]
+        mb = [round(rng.uniform(0.1, 0.6), 6) for _ in range(nch)]
+        thr = max(a + b for a, b in zip(ma, mb))
+        while True:
+            m = [round(thr * 1.08 + rng.uniform(0.05, 1.6), 6) for _ in range(npoles)]
+            s = round((thr * 1.05 + rng.uniform(0.02, 1.8)) ** 2, 6)
+            if all(abs(s - x * x) > 0.12 for x in m):
+                break
+        out.append({"kind": "history", "style": "closure" if i % 4 < 2 else "lambda", "n": nch, "npoles": npoles,
+                    "first": ["PhaseSpaceFactorSWave", "EqualMassPhaseSpaceFactor", "PhaseSpaceFactorSWave"][i % 3],
+                    "phsp": list(PHSP)[(i // 2) % 3], "L": rng.choice([0, 1, 2]),
+                    "d": round(rng.uniform(0.5, 3.0), 6), "s": s, "m": m, "ma": ma, "mb": mb,
+                    "Gamma": [[round(rng.uniform(0.05, 0.6), 6) for _ in range(nch)] for _ in range(npoles)],
+                    "gamma": [[round(rng.uniform(0.3, 1.5) * rng.choice([1, 1, -1]), 6) for _ in range(nch)]
+                              for _ in range(npoles)]})
     names = list(PHSP)
     for i in range(45 if thorough else 6):
         nch = rng.choice([2, 2, 3]) if thorough else 2
@@ -363,7 +466,7 @@ def main():
             fails = [("exception_" + type(exc).__name__ + "/" + c["kind"], f"{type(exc).__name__}: {exc}"[:300])]
         nev += 1
         distinct.add(json.dumps(c, sort_keys=True))
-        tag = f"{c['kind']}/n{c['n']}/{c['phsp']}" + ("/pole-in-gap" if c.get("subthr") else "") + ("/pole-below-pseudothreshold" if c.get("below_pseudo") else "")
+        tag = f"{c['kind']}/n{c['n']}/{c['phsp']}" + (f"/after-{c['first']}/{c['style']}" if c["kind"] == "history" else "") + ("/pole-in-gap" if c.get("subthr") else "") + ("/pole-below-pseudothreshold" if c.get("below_pseudo") else "")
         kinds[tag] = kinds.get(tag, 0) + 1
         if len(samples) < 3 and c["kind"] not in [s_["kind"] for s_ in samples]:
             samples.append({k: c[k] for k in ("kind", "n", "npoles", "L", "phsp", "s", "m")})
